@@ -142,6 +142,26 @@ def tokenize(context: Iterator[tuple[str, Any]]) -> Iterator[tuple[str, Any]]:
         yield item
 
 
+def remove_comments(element: etree.Element) -> None:
+    """Remove the comment and processing instruction children of the element.
+
+    Trees built with insert_comments/insert_pis keep them as nodes that split
+    the character data, their tails are joined with the preceding text.
+    """
+    previous = None
+    for child in list(element):
+        if isinstance(child.tag, str):
+            previous = child
+            continue
+
+        if child.tail and previous is None:
+            element.text = (element.text or "") + child.tail
+        elif child.tail:
+            previous.tail = (previous.tail or "") + child.tail
+
+        element.remove(child)
+
+
 def iterwalk(element: etree.Element, ns_map: dict) -> Iterator[tuple[str, Any]]:
     """Walk over the element tree and emit events.
 
@@ -160,6 +180,7 @@ def iterwalk(element: etree.Element, ns_map: dict) -> Iterator[tuple[str, Any]]:
         prefix = namespaces.load_prefix(uri, ns_map)
         yield EventType.START_NS, (prefix, uri)
 
+    remove_comments(element)
     yield EventType.START, element
 
     for child in element:
